@@ -11,7 +11,7 @@ from typing import Any, Dict, List
 from ..effects import Analyzer
 from ..interp import Interp, Obj, PyFunc, Raised, Unsupported, PTS
 from ..model import staged, AnalysisError, Model, src, walk_no_nested
-from ..poly import Poly
+from ..poly import Poly, Rat
 from .c12 import tag_rule
 from .c14 import split_rules
 
@@ -142,6 +142,12 @@ def _joins(model, rep):
             return out
         if name == "numpy.unique":
             return ("U", "ixa", Ixb())
+        if name in ("numpy.max", "numpy.amax") and args and isinstance(
+                args[0], TArr):
+            # the largest vertex number used by the cells: NOT the number
+            # of stored points (trailing unused points are admissible for
+            # an operand, e.g. the result of m1 @ m2)
+            return Poly.sym(f"maxt{args[0].k}")
         return NotImplemented
 
     class Ixb:
@@ -522,6 +528,157 @@ def _transform_values(model, rep):
        fn.lineno)
 
 
+def _mirrored(model, rep):
+    """Mesh.mirrored on symbolic points x, normal n and plane point q (2-D
+    and 3-D): the new points must be x - 2 ((x - q).n) n / (n.n), the
+    reflection in the plane through q with normal n - whatever the length
+    of n.  The norm is a symbol L with L^2 = n.n."""
+    R4 = "C18-R4"
+    mcls = model.cls(MESH, "Mesh")
+    fn = mcls.methods["mirrored"]
+    L = Poly.sym("L")
+
+    class V:
+        """d values (one per coordinate row; the point axis is not
+        materialised): used for points, vectors and columns alike"""
+        skv_isarray = True
+
+        def __init__(self, vals):
+            self.vals = [Rat.coerce(v) for v in vals]
+
+        def skv_getattr(self, name):
+            if name == "copy":
+                return PyFunc(lambda a, k, n: V(self.vals))
+            if name == "shape":
+                return (len(self.vals), Poly.sym("nv"))
+            raise Unsupported("vector." + name)
+
+        def skv_getitem(self, ix):
+            if isinstance(ix, tuple) and all(
+                    x is None or x == slice(None) for x in ix):
+                return self
+            if isinstance(ix, Fraction):
+                ix = int(ix)
+            if isinstance(ix, int):
+                return self.vals[ix]
+            raise Unsupported("vector index")
+
+        def skv_binop(self, op, other, reflected):
+            if isinstance(other, V):
+                o = other.vals
+            elif isinstance(other, (int, Fraction, Poly, Rat)):
+                o = [Rat.coerce(other)] * len(self.vals)
+            else:
+                raise Unsupported("vector arithmetic operand")
+            out = []
+            for a, b in zip(self.vals, o):
+                if reflected:
+                    a, b = b, a
+                if isinstance(op, ast.Add):
+                    out.append(a + b)
+                elif isinstance(op, ast.Sub):
+                    out.append(a - b)
+                elif isinstance(op, ast.Mult):
+                    out.append(a * b)
+                elif isinstance(op, ast.Div):
+                    out.append(a / b)
+                else:
+                    raise Unsupported("vector operator")
+            return V(out)
+
+        def skv_neg(self):
+            return V([Rat(Poly()) - v for v in self.vals])
+
+    def hook(interp, name, args, kwargs, node):
+        if name == "numpy.array" and isinstance(args[0], (tuple, list)):
+            return V(list(args[0]))
+        if name == "numpy.linalg.norm" and isinstance(args[0], V) and \
+                len(args) == 1:
+            return L
+        if name == "numpy.dot" and all(isinstance(a, V) for a in args[:2]):
+            tot = Rat(Poly())
+            for a, b in zip(args[0].vals, args[1].vals):
+                tot = tot + a * b
+            return tot
+        if name == "dataclasses.replace":
+            cap["kw"] = kwargs
+            return "OUT"
+        return NotImplemented
+
+    def reduce(poly, nn):
+        """replace L^2 by n.n"""
+        out = Poly()
+        for mono, c in poly.t.items():
+            pw = dict(mono)
+            k = pw.pop("L", 0)
+            term = Poly({tuple(sorted(pw.items())): c})
+            for _ in range(k // 2):
+                term = term * nn
+            if k % 2:
+                term = term * L
+            out = out + term
+        return out
+    for d in (2, 3):
+        cap = {}
+        X = [Poly.sym(f"x{i}") for i in range(d)]
+        N = [Poly.sym(f"n{i}") for i in range(d)]
+        Q = [Poly.sym(f"q{i}") for i in range(d)]
+        nn = Poly()
+        S = Poly()
+        for i in range(d):
+            nn = nn + N[i] * N[i]
+            S = S + (X[i] - Q[i]) * N[i]
+        pts = V(X)
+        obj = Obj(mcls, {"p": pts, "doflocs": pts,
+                         "dim": PyFunc(lambda a, k, n, d=d: d)})
+        try:
+            Interp(model, call_hook=hook).call(
+                fn, [tuple(N), tuple(Q)], {}, self_obj=obj)
+        except (Unsupported, Raised) as e:
+            raise AnalysisError(f"Mesh.mirrored: {e}")
+        out = cap.get("kw", {}).get("doflocs")
+        ok = isinstance(out, V) and len(out.vals) == d and \
+            [v.n for v in pts.vals] == X
+        bad = None
+        if ok:
+            for i in range(d):
+                # out_i - x_i + 2 S n_i / L^2 == 0  (mod L^2 = n.n)
+                e = out.vals[i] - Rat(X[i]) + Rat(S * N[i] * 2, L * L)
+                if not reduce(e.n, nn).is_zero():
+                    bad = i
+                    break
+        _v(rep, R4, ok and bad is None, f"Mesh.mirrored:values[{d}d]",
+           "new points = x - 2 ((x - q).n) n / (n.n): the reflection in the "
+           "plane through q with normal n, for any length of n",
+           "Mesh.mirrored",
+           (f"coordinate {bad} of the mirrored points is not that of the "
+            f"reflection in the plane through the given point with the "
+            f"given normal (e.g. the plane offset is taken with the "
+            f"unnormalised normal while the reflection uses the unit "
+            f"normal: wrong for non-unit normals off the origin)"
+            if bad is not None else "mirrored does not produce a new point "
+            "array from the operand's points"), fn.lineno)
+        # default point: the origin
+        cap.clear()
+        try:
+            Interp(model, call_hook=hook).call(fn, [tuple(N)], {},
+                                               self_obj=obj)
+        except (Unsupported, Raised) as e:
+            raise AnalysisError(f"Mesh.mirrored(default point): {e}")
+        out = cap.get("kw", {}).get("doflocs")
+        S0 = Poly()
+        for i in range(d):
+            S0 = S0 + X[i] * N[i]
+        ok0 = isinstance(out, V) and all(
+            reduce((out.vals[i] - Rat(X[i])
+                    + Rat(S0 * N[i] * 2, L * L)).n, nn).is_zero()
+            for i in range(d))
+        _v(rep, R4, ok0, f"Mesh.mirrored:default-point[{d}d]",
+           "without a point the plane passes through the origin",
+           "Mesh.mirrored", "with the default point the mesh is not "
+           "reflected in the plane through the origin", fn.lineno)
+
+
 def run(model: Model, rep, tier: str) -> None:
     rep.rule("C18-R1", "surgery operations set both tag fields or provably "
              "keep cell and facet indices")
@@ -537,6 +694,7 @@ def run(model: Model, rep, tier: str) -> None:
     split_rules(model, rep, "C18-R2", "C18-R2", "C18-R2")
     staged(lambda: _joins(model, rep), lambda: _restrict(model, rep),
            lambda: _transform_values(model, rep),
+           lambda: _mirrored(model, rep),
            lambda: _transformations(model, rep))
     rep.require_min("C18-R1", 8)
     rep.require_min("C18-R2", 9)
@@ -547,6 +705,16 @@ def run(model: Model, rep, tier: str) -> None:
 _QU = "skfem/mesh/mesh_quad_1.py"
 _HE = "skfem/mesh/mesh_hex_1.py"
 MUTANTS = [
+    ("mirrored reflects with the wrong sign of the normal component",
+     (FM, "        p = p - 2. * np.dot(n, p - p0[:, None]) * n[:, None]",
+      "        p = p + 2. * np.dot(n, p - p0[:, None]) * n[:, None]"),
+     "C18-R4"),
+    ("mirrored forgets to normalise the normal",
+     (FM, "        n = n / np.linalg.norm(n)\n", ""), "C18-R4"),
+    ("join shifts the second mesh by max(t) + 1",
+     (FM, "        t = np.hstack((self.t, other.t + self.p.shape[1]))",
+      "        t = np.hstack((self.t, other.t + self.nvertices))"),
+     "C18-R3"),
     ("morphed feeds each function the partly morphed points",
      (FM, "            p[i] = arg(self.p)", "            p[i] = arg(p)"),
      "C18-R4"),
@@ -627,6 +795,11 @@ MUTANTS = [
 _SWAP = ("        t0 = t[0, flip]\n        t1 = t[1, flip]\n"
          "        t[0, flip] = t1\n        t[1, flip] = t0\n")
 TWINS = [
+    ("mirrored written in plane-offset form with the unit normal",
+     (FM, "        n = n / np.linalg.norm(n)\n        p = p - 2. * np.dot(n, "
+      "p - p0[:, None]) * n[:, None]",
+      "        n = n / np.linalg.norm(n)\n        offset = np.dot(n, p0)\n"
+      "        p = p - 2. * (np.dot(n, p) - offset) * n[:, None]")),
     ("oriented() swaps the two rows with one sliced assignment",
      ("skfem/mesh/mesh_simplex.py", _SWAP,
       "        t[:2, flip] = t[1::-1, flip]\n")),
